@@ -80,7 +80,7 @@ func TestVerifC09_ed25519(t *testing.T) {
 		}})
 	r.RequireCounter("in:flip", 2*4*250)
 	r.RequireCounter("in:field-overflow", 2*38)
-	r.RequireCounter("in:torsion", 2*14)
+	r.RequireCounter("in:torsion", 24)
 	r.RequireCounter("in:alias", 2*4)
 	r.RequireCounter("in:valid-lib", 2*5)
 	r.RequireCounter("verify_true_with_small_order_key", 4)
